@@ -451,11 +451,7 @@ class Module(HasAccessibles):
     def _add_accessible(self, name, accessible, cfg=None):
         if self.startModuleDone:
             raise ProgrammingError('Accessibles can only be added before startModule()!')
-        if not self.export:  # do not export parameters of a module not exported
-            accessible.export = False
         self.accessibles[name] = accessible
-        if accessible.export:
-            self.accessiblename2attr[accessible.export] = name
         if isinstance(accessible, Parameter):
             self.parameters[name] = accessible
         if isinstance(accessible, Command):
@@ -473,6 +469,12 @@ class Module(HasAccessibles):
                 self.errors.append(f"'{name}' has no property '{propname}'")
             except BadValueError as e:
                 self.errors.append(f'{name}.{propname}: {str(e)}')
+        # register the exported name after applying cfg, as 'export' may be configured
+        if not self.export:  # do not export parameters of a module not exported
+            accessible.export = False
+        accessible.fixExport()
+        if accessible.export:
+            self.accessiblename2attr[accessible.export] = name
         if isinstance(accessible, Parameter):
             self._handle_writes(name, accessible)
 
